@@ -14,7 +14,7 @@ use grin_core::core::hash::{Hash, Hashed};
 use grin_core::core::transaction::{self, FeeFields};
 use grin_core::core::Committed;
 use grin_core::core::{
-	Block, KernelFeatures, Output, OutputFeatures, Transaction, TxKernel, Weighting,
+	Block, Input, Inputs, KernelFeatures, Output, OutputFeatures, Transaction, TxKernel, Weighting,
 };
 use grin_core::global;
 use grin_core::pow::Difficulty;
@@ -210,6 +210,8 @@ struct Harness<'a> {
 	broken_i1: bool,
 	broken_i3: bool,
 	known_entries: HashSet<Hash>,
+	/// kernel hash -> height of the next block when the transaction carrying it was admitted
+	admitted_at: HashMap<Hash, u64>,
 	/// first-kernel hashes of transactions whose admission was already reported (I4)
 	flagged: HashSet<Hash>,
 	overweight: Option<(Transaction, Coin)>,
@@ -315,6 +317,7 @@ impl<'a> Harness<'a> {
 			broken_i1: false,
 			broken_i3: false,
 			known_entries: HashSet::new(),
+			admitted_at: HashMap::new(),
 			flagged: HashSet::new(),
 			overweight: None,
 			dummy_cb: None,
@@ -801,6 +804,7 @@ impl<'a> Harness<'a> {
 				return;
 			}
 		};
+		let admit_h = header.height + 1;
 		let (pre_tx, pre_stem): (Vec<Hash>, Vec<Hash>) = {
 			let p = self.pool.read();
 			(
@@ -839,6 +843,9 @@ impl<'a> Harness<'a> {
 			Ok(()) => {
 				outcome = "ok".to_string();
 				self.run.count("admitted", 1);
+				for k in s.eff.kernels() {
+					self.admitted_at.entry(k.hash()).or_insert(admit_h);
+				}
 				// evictions: txpool entries that disappeared, or the admitted tx itself gone
 				let gone = pre_tx.iter().filter(|h| !post_tx.contains(h)).count();
 				let eff_kernels = s.eff.kernels().to_vec();
@@ -1535,7 +1542,18 @@ impl<'a> Harness<'a> {
 		if !young.is_empty() && self.prng.chance(1, 2) {
 			let c = self.prng.pick(&young).clone();
 			let (fee, shift) = self.good_fee(1, 1, c.value);
-			if let Some((tx, _)) = self.mk_tx(&[c], 1, fee, shift, None, 0) {
+			if let Some((mut tx, _)) = self.mk_tx(&[c.clone()], 1, fee, shift, None, 0) {
+				// half of them the way a v2 peer or the API would send them — (features, commitment) inputs — with the
+				// features the SENDER chose: the coinbase declared as a plain output. What the input spends is decided by
+				// the chain, not by the sender.
+				let mislabelled = self.prng.chance(1, 2);
+				if mislabelled {
+					tx.body.inputs = Inputs::FeaturesAndCommit(vec![Input::new(OutputFeatures::Plain, c.commit)]);
+					self.run.count("immature_coinbase_spends_declared_plain_in_v2_inputs", 1);
+					if !self.pool.read().txpool.entries.is_empty() {
+						self.run.count("immature_coinbase_spends_declared_plain_in_v2_inputs_with_other_entries_pooled", 1);
+					}
+				}
 				self.submit(Submission {
 					kind: "immature",
 					eff: tx.clone(),
@@ -1543,7 +1561,7 @@ impl<'a> Harness<'a> {
 					label: Label::Unmineable,
 					stem,
 					src,
-					desc: "spend of an immature coinbase".into(),
+					desc: if mislabelled { "spend of an immature coinbase declared Plain in (features, commitment) inputs".into() } else { "spend of an immature coinbase".into() },
 				});
 			}
 			return;
@@ -1737,7 +1755,38 @@ impl<'a> Harness<'a> {
 		}
 		let fail = |h: &mut Self, clause: &str, err: String, txs: &[Transaction]| -> String {
 			if real {
-				let sig = format!("I5;clause={};err={}", clause, err);
+				// maturity / lock-height refusals: was the offending entry inadmissible when it was admitted, or did the
+				// height of the next block FALL afterwards (reorganisation to a heavier but lower fork: recorded finding)?
+				let mut cause = String::new();
+				if err == "ImmatureCoinbase" || err == "KernelLockHeight" {
+					let next_h = head.height + 1;
+					let st = h.ledger.state_at(&head.hash());
+					let mat = global::coinbase_maturity();
+					let mut offenders = 0;
+					let mut fell = 0;
+					for tx in txs {
+						let locked = tx_lock_height(tx) > next_h;
+						let immature = inputs_vec(&tx.inputs()).iter().any(|(c, _)| match st.utxo.get(c) {
+							Some(&i) => st.outs[i].features == OutputFeatures::Coinbase && next_h < st.outs[i].height + mat,
+							None => false,
+						});
+						if locked || immature {
+							offenders += 1;
+							let adm = tx.kernels().iter().filter_map(|k| h.admitted_at.get(&k.hash())).max().cloned();
+							if adm.map(|a| a > next_h).unwrap_or(false) {
+								fell += 1;
+							}
+						}
+					}
+					cause = if offenders == 0 {
+						";cause=no_offending_entry_identified".to_string()
+					} else if fell == offenders {
+						";cause=next_height_fell_after_admission".to_string()
+					} else {
+						";cause=inadmissible_when_admitted".to_string()
+					};
+				}
+				let sig = format!("I5;clause={};err={}{}", clause, err, cause);
 				h.violation(
 					&sig,
 					&format!(
